@@ -2,9 +2,6 @@
 
 package main
 
-func (e *env) kmsSection()    {}
-func (e *env) streamSection() {}
-func (e *env) hybridSection() {}
 func (e *env) sigSection()    {}
 func (e *env) keygenSection() {}
 func (e *env) idSection()     {}
